@@ -49,6 +49,27 @@ CLAIMED = {
             "ResolvedPos / Node traversal accessor, compared with a counting reference on the JSON tree",
             "All accessors agree with the flat token picture, in UTF-16 units, including astral text and non-inclusive "
             "marks.", COMMON_NOTE, "DESIGN.md 5/C09"),
+    "C11": ("bounded-exhaustive exploration (E1) of the seven replace-family operations and replace_step over all "
+            "ranges x pool slices/nodes; totality on the zoo, validity + content preservation also on the enumerated "
+            "F-gen schema family",
+            "No exception on the bundled schemas and their variants; every returned document reference-valid; leaf "
+            "sequence before/after the range kept with marks; inserted text an in-order subsequence of the slice; "
+            "deletes remove exactly the range's text.", COMMON_NOTE, "DESIGN.md 5/C11"),
+    "C12": ("bounded-exhaustive exploration (E1) of the structure helpers at every position / block range / type / "
+            "slice, each approval followed by performing the edit on the real Transform",
+            "Helpers never raise and return in-range values; approved split/join/lift/wrap/insert/drop succeed and "
+            "give valid documents; split/join/lift/wrap (approved or not) keep the leaf sequence.", COMMON_NOTE,
+            "DESIGN.md 5/C12"),
+    "C13": ("bounded-exhaustive exploration (E1) of add/remove mark, node-mark, attribute, block-type and markup "
+            "edits over all ranges x marks x types on the zoo and the F-marks family, against per-token predictions",
+            "Result equals the reference prediction token by token (marks added/removed exactly in range where "
+            "allowed, everything else identical); retyping keeps children the new type can hold.", COMMON_NOTE,
+            "DESIGN.md 5/C13"),
+    "C18": ("bounded-exhaustive exploration (E1) of replace-family edits, lifts and splits inside every isolating "
+            "node of every iso/table scope document, with a token prefix/suffix oracle",
+            "Tokens up to the node's opening and from its closing on are unchanged and still delimit one node; "
+            "lift targets and approved splits stay inside; max_open keeps isolating nodes closed.", COMMON_NOTE,
+            "DESIGN.md 5/C18"),
     "C14": ("explicit-state exploration (E2) of the mark-set graph of every configuration of an enumerated family of "
             "mark schemas, to closure",
             "Every reachable mark set is canonical; add/remove/membership/equality/set_from/allowed_marks agree with "
